@@ -19,7 +19,7 @@ func init() {
 			" The fuzzer's iteration cap applies only under Evaluator.fuzzing." +
 			" Each for-in binding is made in every iteration; a return statement carries a value exactly where the statement-end test answered false." +
 			" The statement parser stores into a statement node only what its own parser calls returned (no restructuring of parsed statements)." +
-			" The truthiness of an if condition is taken exactly once per execution.",
+			" The truthiness of an if condition is taken exactly once per execution. Every statement parsed inside `{ … }` is appended to the block's list (none is dropped).",
 		notDecided: "the parser's dangling-else attachment (inherent in the recursive descent: an else is consumed by the innermost if still open; not separately checked); element order of Go's range over slices / strings (language semantics).",
 	})
 }
@@ -53,6 +53,7 @@ func runC07(c *Ctx) {
 // `if (a) { if (b) x }` into `if (a && b) x` changes which `if` an `else` belongs to).
 func parsedNodeFidelity(c *Ctx, rule string) {
 	p := c.P
+	blockKeepsEveryStatement(c, rule)
 	c.note("%s parsed-node-fidelity: in the statement-level parser functions every Expr / Statement stored into a field of a Statement node is the result of a parser call made there (or a node built there whose own fields satisfy the same condition, or nil); it is never read out of a field of an already parsed node.", rule)
 	n := 0
 	for _, fn := range p.Funcs {
@@ -691,5 +692,70 @@ func fuzzLimitGuarded(c *Ctx, rule string) {
 	}
 	if n == 0 {
 		c.ok(rule, "loop-limit", "", "no iteration cap in the evaluator")
+	}
+}
+
+// blockKeepsEveryStatement: a block is the list of the statements written in it. In the parser of
+// `{ … }` every successfully parsed statement is appended to the block's list before the next one is
+// parsed: no condition (a guess that the statement is unreachable, say) decides whether it is kept.
+func blockKeepsEveryStatement(c *Ctx, rule string) {
+	p := c.P
+	blk := p.LangFunc("(*Parser).block")
+	if blk == nil {
+		c.undecided(rule, "block-keeps-every-statement", "", "anchor (*Parser).block not found")
+		return
+	}
+	n := 0
+	for _, call := range callsIn(blk) {
+		cv, ok := call.(*ssa.Call)
+		if !ok {
+			continue
+		}
+		callee := cv.Call.StaticCallee()
+		if callee == nil || callee.Signature.Results().Len() != 2 || !isLangNamed(callee.Signature.Results().At(0).Type(), "Statement") {
+			continue
+		}
+		// the loop around the call
+		var hdr *ssa.BasicBlock
+		for _, h := range blk.Blocks {
+			if h.Dominates(cv.Block()) && reachableFrom([]*ssa.BasicBlock{cv.Block()}, nil)[h] {
+				if hdr == nil || hdr.Dominates(h) {
+					hdr = h
+				}
+			}
+		}
+		if hdr == nil {
+			continue
+		}
+		n++
+		// the append of this call's statement
+		var app *ssa.Call
+		allInstrs(blk, func(in ssa.Instruction) {
+			a, ok := in.(*ssa.Call)
+			if !ok {
+				return
+			}
+			bi, ok := a.Call.Value.(*ssa.Builtin)
+			if !ok || bi.Name() != "append" || len(a.Call.Args) < 2 {
+				return
+			}
+			if strings.Contains(p.Render(a.Call.Args[1]), p.Render(cv)+"#0") {
+				app = a
+			}
+		})
+		if app == nil {
+			c.violated(rule, "block-keeps-every-statement", p.InstrPos(cv), "the statement parsed here is not appended to the block's list")
+			continue
+		}
+		okEdge := cv.Block()
+		for _, s := range cv.Block().Succs {
+			if FactsOf(blk).At(s).KnownNil(errValOf(cv)) {
+				okEdge = s
+			}
+		}
+		c.check(!canSkip(okEdge, app.Block(), hdr), rule, "block-keeps-every-statement", p.InstrPos(app), "every parsed statement is appended before the next one is parsed", "after a statement was parsed successfully the next one can be reached without the append: some statements of a block are parsed and dropped (e.g. on a guess that they are unreachable), so code after an if / else-if chain silently disappears")
+	}
+	if n == 0 {
+		c.undecided(rule, "block-keeps-every-statement", p.Pos(blk.Pos()), "no statement parse inside a loop found in (*Parser).block")
 	}
 }
